@@ -37,7 +37,7 @@ def cal_years(tier, seed):
 def mc_calendar(res, tier, seed, vec_path):
     years = cal_years(tier, seed)
     if tier == "thorough":
-        consts = dict(Years=tla_set(years), EmitVec="TRUE", Cycles="<- CyclesThorough", Secs=tla_set([0, 1, 3599, 43200, 86399]), Mod=1, Rem=0)
+        consts = dict(Years=tla_set(years), EmitVec="TRUE", Cycles="<- CyclesThorough", Secs=tla_set([0, 86399]), Mod=1, Rem=0)
     else:
         consts = dict(Years=tla_set(years), EmitVec="TRUE", Cycles="<- CyclesQuick", Secs=tla_set([0, 86399]), Mod=3, Rem=seed % 3)
     info = run_mc("MC_Calendar", consts, workers=C.NCPU, vec_out=vec_path, timeout=3000)
